@@ -372,14 +372,37 @@ def _session_fields(settings):
             int(s.max_high_frequency_orders * 64), int(s.high_frequency_submission_rate * 64)]
 
 
+def _runner_session_fields(sessions):
+    """the sessions of ONE run, configured through the runner: [[cap x 64, rate x 64] per session] (or the exception name)"""
+    cfg = {"simulation": {"markets": ["M"], "agents": [], "sessions": [
+        dict({"sessionName": k, "iterationSteps": 2, "withOrderPlacement": True, "withOrderExecution": True, "withPrint": False}, **x)
+        for k, x in enumerate(sessions)]}, "M": {"class": "Market", "tickSize": 1.0, "marketPrice": 100.0}}
+    try:
+        with warnings.catch_warnings():
+            warnings.simplefilter("ignore")
+            rn = SequentialRunner(settings=cfg, prng=random.Random(0))
+            rn._setup()
+        return [[int(x.max_high_frequency_orders * 64), int(x.high_frequency_submission_rate * 64)] for x in rn.simulator.sessions]
+    except Exception as ex:  # noqa: BLE001
+        return [[-1, -1, type(ex).__name__] for _ in sessions]
+
+
 def legacy_cases():
     out = []
     for v in (0, 1, 3, 7):
         out.append({"c": "legacy", "key": "maxHifreqOrders", "old": _session_fields({"maxHifreqOrders": v}),
-                    "new": _session_fields({"maxHighFrequencyOrders": v})})
+                    "new": _session_fields({"maxHighFrequencyOrders": v}), "want": [v * 64, 64]})
     for v in (0.0, 0.25, 0.5, 1.0):
         out.append({"c": "legacy", "key": "hifreqSubmitRate", "old": _session_fields({"hifreqSubmitRate": v}),
-                    "new": _session_fields({"highFrequencySubmitRate": v})})
+                    "new": _session_fields({"highFrequencySubmitRate": v}), "want": [64, int(v * 64)]})
+    # several sessions of one run, each with its own values under the deprecated spellings (what the runner configures for
+    # every one of them is what the configuration says, whichever session comes first)
+    for caps, rates in (((0, 2), (0.5, 0.0)), ((3, 0, 2), (1.0, 0.25, 0.5)), ((2, 2), (0.0, 0.0)), ((1, 5, 0), (0.25, 1.0, 0.0))):
+        old = _runner_session_fields([{"maxHifreqOrders": c, "hifreqSubmitRate": r} for c, r in zip(caps, rates)])
+        new = _runner_session_fields([{"maxHighFrequencyOrders": c, "highFrequencySubmitRate": r} for c, r in zip(caps, rates)])
+        for k, (c, r) in enumerate(zip(caps, rates)):
+            out.append({"c": "legacy", "key": "session-%d-of-a-run" % k, "old": [0, 0, 0, 0] + old[k][:2], "new": [0, 0, 0, 0] + new[k][:2],
+                        "want": [c * 64, int(r * 64)]})
     return out
 
 
